@@ -62,10 +62,10 @@ type c10Mod struct {
 type c10WS struct {
 	Version string // v2 | v1
 	Locals  []*c10Mod
-	Remotes []*c10Mod          // every commit of every remote name
-	Owner   map[string]string  // import path -> module key ("name" for remotes, ID for locals) after precedence
-	Plant   string             // "", cycle, duplicate, missing
-	LockIDs []string           // v2: remote commits pinned at the root
+	Remotes []*c10Mod         // every commit of every remote name
+	Owner   map[string]string // import path -> module key ("name" for remotes, ID for locals) after precedence
+	Plant   string            // "", cycle, duplicate, missing
+	LockIDs []string          // v2: remote commits pinned at the root
 	// PlantDirs: directories of the local modules that carry the planted problem
 	PlantDirs []string
 }
@@ -165,6 +165,10 @@ func c10Gen(c *core.C, errorCase bool) *c10WS {
 			}
 			if r.IntN(6) == 0 {
 				f.Imports = append(f.Imports, "google/protobuf/timestamp.proto")
+			}
+			if r.IntN(6) == 0 {
+				// well-known types that themselves import other well-known types
+				f.Imports = append(f.Imports, []string{"google/protobuf/type.proto", "google/protobuf/api.proto"}[r.IntN(2)])
 			}
 			f.Imports = dedup(f.Imports)
 			m.Files = append(m.Files, f)
@@ -293,6 +297,8 @@ func c10Resolve(ws *c10WS) *c10Resolved {
 		}
 	}
 	res.msgOf["google/protobuf/timestamp.proto"] = [2]string{"google.protobuf", "Timestamp"}
+	res.msgOf["google/protobuf/type.proto"] = [2]string{"google.protobuf", "Type"}
+	res.msgOf["google/protobuf/api.proto"] = [2]string{"google.protobuf", "Api"}
 	return res
 }
 
@@ -381,7 +387,7 @@ func (rg *c10Registry) digest(m *c10Mod) string {
 func (rg *c10Registry) files(m *c10Mod) map[string][]byte {
 	out := map[string][]byte{}
 	// messages of imported files: within the remote universe, same name -> same message
-	msgOf := map[string][2]string{"google/protobuf/timestamp.proto": {"google.protobuf", "Timestamp"}}
+	msgOf := map[string][2]string{"google/protobuf/timestamp.proto": {"google.protobuf", "Timestamp"}, "google/protobuf/type.proto": {"google.protobuf", "Type"}, "google/protobuf/api.proto": {"google.protobuf", "Api"}}
 	for _, x := range rg.all {
 		for _, f := range x.Files {
 			msgOf[f.Path] = [2]string{f.Pkg, f.Msg}
@@ -826,6 +832,9 @@ func c10CheckWorkspace(ctx context.Context, c *core.C, ws *c10WS, res *c10Resolv
 			}
 		}
 	}
+	for k, v := range c10WKTImports {
+		imports[k] = v
+	}
 	want := model.Closure(T, imports)
 	got := map[string]bool{}
 	for _, f := range image.Files() {
@@ -872,6 +881,12 @@ func c10CheckWorkspace(ctx context.Context, c *core.C, ws *c10WS, res *c10Resolv
 			c.Violation("missing-file", key+" path="+p, "image lacks "+p, nil)
 		}
 	}
+}
+
+// c10WKTImports: the import statements of the built-in well-known types used by the workload.
+var c10WKTImports = map[string][]string{
+	"google/protobuf/type.proto": {"google/protobuf/any.proto", "google/protobuf/source_context.proto"},
+	"google/protobuf/api.proto":  {"google/protobuf/source_context.proto", "google/protobuf/type.proto"},
 }
 
 func keysOf(m map[string]bufmodule.Module) []string {
